@@ -1,8 +1,198 @@
-import CssVerif.Model.Tok
+import CssVerif.Lemmas.Tok
+/-!
+# C05 — tokenizer: total, lossless, position-accurate, classifies by the grammar
+
+Property theorems only (helpers and the specification functions `unescape`, `stripCont`, `lc`, `tokenValue`
+are in `Lemmas/Tok.lean`). Model: `Model/Tok.lean` (`tokenize text fullsheet doComments`), tables:
+`Gen/C05Productions.lean` (regenerated from `cssproductions.py` / `tokenize2.py` / `helper.py` on every run),
+tied to the code by the differential correspondence of `tools/harness/c05.py`.
+
+Vocabulary: `(tokenize text full doC).items` = every step of the loop (`span` = the source code points the step
+consumed, `found` = `span` plus a full-sheet completion, `emit` = yielded or filtered comment);
+`bomItems text ++ body text full doC ++ eofItems …` is its decomposition.
+-/
 namespace CssVerif.C05
 open CssVerif CssVerif.Tok CssVerif.Gen.C05
 
-/-- every generated production is syntactically unable to match the empty string -/
-theorem productions_nonNullable : (productions.all fun p => p.2.nonNullable) = true := by decide
+/-! ## T5.1 total; exactly one end marker -/
+
+/-- every generated production is syntactically unable to match the empty string (so each step advances) -/
+theorem productions_nonNullable : ∀ p ∈ productions, p.2.nonNullable = true :=
+  Tok.productions_nonNullable
+
+/-- **T5.1 total**: for every text and both flags the tokenizer stops regularly — it never spins
+(`stuck`: no production matches, or an empty match), never raises (`int()`, `found[0]`), and the fuel of the
+model's recursion is never exhausted. -/
+theorem tokenize_total (text : Cps) (full doC : Bool) :
+    ∃ line col, (tokenize text full doC).stop = .done line col :=
+  mainLoop_done text full doC
+
+/-- **T5.1 eof_once**: in full-sheet mode the output is the BOM token (if any), the body, and exactly one end
+marker with an empty value — last; no other token has type `EOF`. -/
+theorem eof_once (text : Cps) (doC : Bool) :
+    ∃ line col, (tokenize text true doC).items =
+        bomItems text ++ body text true doC ++ [⟨"EOF", [], line, col, [], [], true⟩] ∧
+      ∀ it ∈ bomItems text ++ body text true doC, it.typ ≠ "EOF" := by
+  obtain ⟨l, c, hd⟩ := mainLoop_done text true doC
+  refine ⟨l, c, by simp [tokenize, hd, eofItems], ?_⟩
+  intro it hit
+  have hk : it.typ ∈ knownTypes := by
+    rcases List.mem_append.mp hit with h | h
+    · unfold bomItems at h
+      split at h
+      · simp only [List.mem_singleton] at h; subst h
+        show bomName ∈ knownTypes
+        decide
+      · simp at h
+    · exact (body_itemsOK_mem text true doC it h).1
+  intro he
+  rw [he] at hk
+  revert hk; decide
+
+/-- outside full-sheet mode there is no end marker -/
+theorem no_eof_without_fullsheet (text : Cps) (doC : Bool) :
+    (tokenize text false doC).items = bomItems text ++ body text false doC := by
+  obtain ⟨l, c, hd⟩ := mainLoop_done text false doC
+  simp [tokenize, hd, eofItems]
+
+/-- every token type belongs to the generated vocabulary -/
+theorem types_known (text : Cps) (full doC : Bool) : ∀ it ∈ body text full doC, it.typ ∈ knownTypes :=
+  fun it h => (body_itemsOK_mem text full doC it h).1
+
+/-! ## T5.2 the spans tile the input -/
+
+/-- **T5.2 spans_tile**: the spans of all steps (yielded tokens and filtered comments), in order, concatenate to
+the input — nothing skipped, nothing read twice. -/
+theorem spans_tile (text : Cps) (full doC : Bool) : spans (tokenize text full doC).items = text :=
+  tokenize_tile text full doC
+
+/-- a token's `found` is its span; only the last token of a full sheet may carry a completion after its span -/
+theorem found_is_span (text : Cps) (full doC : Bool) (a : List Item) (it : Item) (b : List Item)
+    (h : (mainLoop text full doC).items = a ++ it :: b) :
+    it.found = it.span ∨ (full = true ∧ b = [] ∧ ∃ k, it.found = it.span ++ k) :=
+  itemsOK_split full _ (loop_itemsOK full doC _ _ _ _) a it b h
+
+/-! ## T5.3 positions -/
+
+/-- **T5.3 positions (general form)**: every token after the BOM token carries the line and column — lines
+counted by line feeds, column = 1 + distance to the previous line feed — of its first code point **in the text
+that follows the BOM**. (`lc pre` = position of the code point that follows `pre`.) -/
+theorem positions_after_bom (text : Cps) (full doC : Bool) (a : List Item) (it : Item) (b : List Item)
+    (h : body text full doC = a ++ it :: b) : (it.line, it.col) = lc (spans a) := by
+  have := posOK_split _ [] (body_pos text full doC) a it b h
+  simpa using this
+
+/- Full statement (T5.3 as the property words it): for every input,
+     (tokenize text full doC).items = a ++ it :: b → it.typ ≠ "EOF" → (it.line, it.col) = lc (spans a).
+   It fails when the input starts with the BOM production (known finding C05-bom-col, `bom_col_witness`):
+   `col` is not advanced after the BOM (tokenize2.py:138-141). Proved under the exact guard: -/
+
+/-- **T5.3 positions** for inputs that do not start with the BOM production: every token except the end marker
+carries the line and column of the first code point of its span in the input. -/
+theorem positions_partial (text : Cps) (full doC : Bool) (hbom : bomRe.first text = none)
+    (a : List Item) (it : Item) (b : List Item)
+    (h : (tokenize text full doC).items = a ++ it :: b) (hne : it.typ ≠ "EOF") :
+    (it.line, it.col) = lc (spans a) := by
+  obtain ⟨l, c, hd⟩ := mainLoop_done text full doC
+  have hb : bomItems text = [] := by simp [bomItems, hbom]
+  simp only [tokenize, hb, List.nil_append, hd] at h
+  obtain ⟨b', hb'⟩ := split_in_left (fun x : Item => x.typ = "EOF") _ _ a it b h
+    (by intro y hy; simp only [eofItems] at hy; split at hy <;> simp at hy; rw [hy]) hne
+  exact positions_after_bom text full doC a it b' hb'
+
+/-- **known finding C05-bom-col** (machine-checked): for the input `EF BB BF 'a'` the IDENT `a` is reported at
+line 1, column 1, although its first code point is at column 4 — the general statement fails at this input. -/
+theorem bom_col_witness :
+    (tokenize [0xEF, 0xBB, 0xBF, 0x61] false true).items =
+      [⟨"BOM", [0xEF, 0xBB, 0xBF], 1, 1, [0xEF, 0xBB, 0xBF], [0xEF, 0xBB, 0xBF], true⟩,
+       ⟨"IDENT", [0x61], 1, 1, [0x61], [0x61], true⟩] ∧
+    lc [0xEF, 0xBB, 0xBF] = (1, 4) := by
+  constructor
+  · decide +kernel
+  · decide
+
+/-- the guard of `positions_partial` is satisfiable, and it is exactly what excludes the witness -/
+example : bomRe.first [0x61, 0x20, 0x62] = none := by decide
+example : bomRe.first [0xEF, 0xBB, 0xBF, 0x61] = some 3 := by decide
+/-- a real U+FEFF is not the BOM production (which is written on code points FE FF / EF BB BF) -/
+example : bomRe.first [0xFEFF, 0x61] = none := by decide
+
+/-! ## T5.4 values -/
+
+/-- **T5.4 (escape decoding)**: what `unicodesub(_repl, ·)` computes — a backtracking regular expression and a
+replacement callback that calls `int(…, 16)` — is, for every string, exactly the independent one-pass decoder
+`unescape` (it never raises). -/
+theorem unicodesub_is_unescape (s : Cps) : subU s = some (unescape s) := subU_eq_unescape s
+
+/-- `cleanstring('', ·)` is the independent one-pass remover of backslash-newline -/
+theorem cleanstring_is_stripCont (s : Cps) : subClean s = some (stripCont s) := subClean_eq_stripCont s
+
+/-! `unescape` is characterised by these equations (it is defined without regular expressions in
+`Lemmas/Tok.lean`; `runLen isHex t 6` = number of leading hex digits, at most 6; `wsLen` = length of the optional
+terminator: CR LF, or one of TAB CR LF FF SPACE; `decodeHex` = escaped backslash for U+005C, the code point up to
+U+10FFFF, the text as written above). -/
+theorem unescape_nil : unescape [] = [] := rfl
+
+theorem unescape_plain (c : Nat) (t : Cps) (h : c ≠ 92) : unescape (c :: t) = c :: unescape t := by
+  show unescapeF (t.length + 1) (c :: t) = _
+  simp only [unescapeF, h, ne_eq, not_false_eq_true, if_true]
+  rfl
+
+theorem unescape_lone_backslash : unescape [92] = [92] := by decide
+
+/-- an escaped backslash is a unit: it stays, and its second half cannot start a hex escape -/
+theorem unescape_pair (t : Cps) : unescape (92 :: 92 :: t) = 92 :: 92 :: unescape t := by
+  show unescapeF (t.length + 1 + 1) (92 :: 92 :: t) = _
+  simp only [unescapeF, ne_eq, not_true_eq_false, if_false, if_true]
+  rw [unescapeF_fuel _ _ (Nat.le_succ _)]
+
+theorem unescape_simple (d : Nat) (u : Cps) (h1 : d ≠ 92) (h2 : isHex d = false) :
+    unescape (92 :: d :: u) = 92 :: unescape (d :: u) := by
+  show unescapeF ((d :: u).length + 1) (92 :: d :: u) = 92 :: unescapeF (d :: u).length (d :: u)
+  rw [unescapeF]
+  simp [h1, h2]
+
+theorem unescape_hex (d : Nat) (u : Cps) (h : isHex d = true) :
+    unescape (92 :: d :: u) =
+      decodeHex ((d :: u).take (runLen isHex (d :: u) 6))
+          (92 :: (d :: u).take (runLen isHex (d :: u) 6 + wsLen ((d :: u).drop (runLen isHex (d :: u) 6))))
+        ++ unescape ((d :: u).drop (runLen isHex (d :: u) 6 + wsLen ((d :: u).drop (runLen isHex (d :: u) 6)))) := by
+  have hd : d ≠ 92 := by intro e; subst e; revert h; decide
+  show unescapeF (u.length + 1 + 1) (92 :: d :: u) = _
+  simp only [unescapeF, ne_eq, not_true_eq_false, if_false, hd, h, if_true]
+  rw [unescapeF_fuel]
+  have : 1 ≤ runLen isHex (d :: u) 6 := by simp [runLen, h]
+  simp only [List.length_drop, List.length_cons]; omega
+
+/-- **T5.4 values**: every token's value is `tokenValue typ found` — `unescape found` for the nine listed types,
+with `stripCont` applied afterwards for STRING / INVALID, `found` itself for every other type — where `found` is the
+token's span (plus the completion for the last token of a full sheet, `found_is_span`). The one exception is
+the comment completed at the end of a full sheet, which is yielded as written (tokenize2.py:173). -/
+theorem values (text : Cps) (full doC : Bool) : ∀ it ∈ body text full doC,
+    it.value = tokenValue it.typ it.found ∨ (full = true ∧ it.typ = "COMMENT" ∧ it.value = it.found) :=
+  fun it h => (body_itemsOK_mem text full doC it h).2
+
+/-- outside full-sheet mode: the value of every token is the decoding of exactly its span -/
+theorem values_partial_sheet (text : Cps) (doC : Bool) (a : List Item) (it : Item) (b : List Item)
+    (h : (mainLoop text false doC).items = a ++ it :: b) : it.value = tokenValue it.typ it.span := by
+  have hmem : it ∈ body text false doC := by
+    unfold body; rw [h]; simp
+  rcases found_is_span text false doC a it b h with hf | ⟨hf, _⟩
+  · rcases values text false doC it hmem with hv | ⟨hv, _⟩
+    · rw [hv, hf]
+    · cases hv
+  · cases hf
+
+/-! ## T5.5 error reports -/
+
+/-- **T5.5**: the report built from a token carries that token's line and column, as attributes and in the
+`[line:col: value]` suffix of the message (errorhandler.py:87-103). With T5.3 these are the line and column of the
+first code point of the token complained about. -/
+theorem report_position (msg : Cps) (t : Item) :
+    (report msg (some t)).line = some t.line ∧ (report msg (some t)).col = some t.col ∧
+    (report msg (some t)).msg = msg ++ [32, 91] ++ natDec t.line ++ [58] ++ natDec t.col ++ [58, 32] ++ t.value ++ [93] :=
+  ⟨rfl, rfl, rfl⟩
+
+example : natDec 120 = [49, 50, 48] := by decide
 
 end CssVerif.C05
